@@ -211,15 +211,18 @@ def run_vh(vh, args, stdin_lines=None, timeout=1200, env=None):
     return p
 
 
-def run_vh_parallel(vh, args, items, nproc=None, timeout=1800, env=None):
+def run_vh_parallel(vh, args, items, nproc=None, timeout=1800, env=None, tolerate=None):
     """Split items over nproc harness processes (the engine has process-global settings).
-    Each process reads NDJSON cases on stdin and writes one NDJSON result per case on stdout."""
+    Each process reads NDJSON cases on stdin and writes one NDJSON result per case on stdout.
+    tolerate(stderr) -> finding id or None: when a harness process dies (exit status other than 0/1) with a
+    signature of a listed known finding, the case that was running is recorded under that finding and the rest of
+    the chunk is re-run in a fresh process. Returns (results, errs) or (results, errs, tolerated) when tolerate is given."""
     import concurrent.futures as cf
     nproc = max(1, min(nproc or NCPU, len(items)))
     chunks = [items[i::nproc] for i in range(nproc)]
-    results, errs = [], []
+    results, errs, tolerated = [], [], []
 
-    def work(chunk):
+    def run_once(chunk):
         p = run_vh(vh, args, chunk, timeout=timeout, env=env)
         out = []
         for line in p.stdout.splitlines():
@@ -228,19 +231,45 @@ def run_vh_parallel(vh, args, items, nproc=None, timeout=1800, env=None):
                     out.append(json.loads(line))
                 except Exception:
                     pass
-        err = p.stderr[-200000:]
-        if p.returncode not in (0, 1):
-            os.makedirs(WORK, exist_ok=True)
-            fp = os.path.join(WORK, "failed-chunk-%d-%d.ndjson" % (os.getpid(), id(chunk) % 100000))
-            with open(fp, "w") as f:
-                for c in chunk:
-                    f.write(json.dumps(c) + "\n")
-            err = f"[input of the failed harness process saved to {fp}; {len(out)} results before it died]\n" + err
-        return p.returncode, out, err
+        return p.returncode, out, p.stderr[-200000:]
+
+    def work(chunk):
+        out_all, tol = [], []
+        while chunk:
+            rc, out, err = run_once(chunk)
+            out = [r for r in out if not r.get("hang")]
+            out_all += out
+            if rc in (0, 1):
+                return 0, out_all, "", tol
+            fid = tolerate(err) if tolerate else None
+            if fid is None or len(out) >= len(chunk):
+                os.makedirs(WORK, exist_ok=True)
+                fp = os.path.join(WORK, "failed-chunk-%d-%d.ndjson" % (os.getpid(), id(chunk) % 100000))
+                with open(fp, "w") as f:
+                    for c in chunk:
+                        f.write(json.dumps(c) + "\n")
+                return rc, out_all, f"[input of the failed harness process saved to {fp}; {len(out)} results before it died]\n" + err, tol
+            tol.append({"finding": fid, "case": chunk[len(out)], "stderr_tail": err[-1500:]})
+            chunk = chunk[len(out) + 1:]
+        return 0, out_all, "", tol
 
     with cf.ThreadPoolExecutor(nproc) as ex:
-        for rc, out, err in ex.map(work, chunks):
+        for rc, out, err, tol in ex.map(work, chunks):
             results += out
+            tolerated += tol
             if rc not in (0, 1):
                 errs.append((rc, err))
+    if tolerate is not None:
+        return results, errs, tolerated
     return results, errs
+
+
+def f_c04_1_death(err):
+    """stderr signatures of the open finding F-C04-1 (c): unbalanced tsspFile reference count at close"""
+    if "F-C04-1" not in {f["id"] for f in load_known("C04")}:
+        return None
+    if "WATCHDOG" in err and "tsspFile).Close" in err and "WaitGroup).Wait" in err:
+        return "F-C04-1"
+    if "negative WaitGroup counter" in err and "tsspFile).Unref" in err:
+        return "F-C04-1"
+    return None
